@@ -240,3 +240,117 @@ func TestC20_Reentrant(t *testing.T) {
 	textwire.VerifReset()
 	c.ExhaustivePart("5 scenarios")
 }
+
+// C20/repeated-calls: every call written in a template is a call of the
+// registered function, with that call's own arguments - also when several calls
+// in one render look alike.
+
+type repCase struct {
+	Scenario string `json:"scenario"`
+}
+
+func c20Repeated(c *harness.Check, cs repCase) string {
+	var failure string
+	pi := c.Guard("json", mustJSON(cs), func() {
+		textwire.VerifReset()
+		calls := 0
+		kind := func(v any) string {
+			switch x := v.(type) {
+			case int, int64:
+				return "int"
+			case float64:
+				return "float"
+			case string:
+				return "str"
+			case bool:
+				return "bool"
+			case nil:
+				return "nil"
+			case []any:
+				return fmt.Sprintf("arr%d", len(x))
+			case map[string]any:
+				return "obj"
+			}
+			return fmt.Sprintf("%T", v)
+		}
+		kinds := func(a []any) string {
+			out := ""
+			for _, v := range a {
+				out += kind(v) + ","
+			}
+			return out
+		}
+		errs := []error{
+			textwire.RegisterIntFunc("zzKind", func(i int, a ...any) int { calls++; return len(kinds(a))*1000 + calls }),
+			textwire.RegisterStrFunc("zzArgs", func(s string, a ...any) string { calls++; return s + ":" + kinds(a) }),
+			textwire.RegisterStrFunc("zzCount", func(s string, a ...any) string { calls++; return fmt.Sprintf("%s#%d", s, calls) }),
+			textwire.RegisterArrFunc("zzTag", func(x []any, a ...any) []any { calls++; return append(append([]any{}, x...), calls) }),
+		}
+		for _, e := range errs {
+			if e != nil {
+				failure = "registration failed: " + e.Error()
+				return
+			}
+		}
+		var src, wantOut string
+		wantCalls := 0
+		switch cs.Scenario {
+		case "look-alike-arguments":
+			src = `{{ "k".zzArgs(1) }} {{ "k".zzArgs("1") }} {{ "k".zzArgs(1.0) }} {{ "k".zzArgs(true) }} {{ "k".zzArgs("true") }} {{ "k".zzArgs(nil) }} {{ "k".zzArgs("<nil>") }}`
+			wantOut, wantCalls = "k:int, k:str, k:float, k:bool, k:str, k:nil, k:str,", 7
+		case "nesting-that-prints-alike":
+			src = `{{ "n".zzArgs(["a b"]) }} {{ "n".zzArgs(["a", "b"]) }} {{ "n".zzArgs([["a"]]) }} {{ "n".zzArgs("a", "b") }} {{ "n".zzArgs("a b") }}`
+			wantOut, wantCalls = "n:arr1, n:arr2, n:arr1, n:str,str, n:str,", 5
+		case "same-call-in-a-loop":
+			src = `@each(i in [1, 2, 3]){{ "id".zzCount() }} @end`
+			wantOut, wantCalls = "id#1 id#2 id#3 ", 3
+		case "same-call-side-by-side":
+			src = `{{ "x".zzCount(1) }}|{{ "x".zzCount(1) }}|{{ [0].zzTag() }}|{{ [0].zzTag() }}`
+			wantOut, wantCalls = "x#1|x#2|0, 3|0, 4", 4
+		case "same-call-in-for":
+			src = `@for(i = 0; i < 3; i++){{ 7.zzKind() }},@end`
+			wantOut, wantCalls = "1,2,3,", 3
+		default:
+			failure = "bad case"
+			return
+		}
+		out, err := textwire.EvaluateString(src, nil)
+		if err != nil {
+			failure = "unexpected error: " + err.Error()
+			return
+		}
+		if out != wantOut || calls != wantCalls {
+			failure = fmt.Sprintf("rendered %q after %d calls of the registered functions, expected %q after %d calls", out, calls, wantOut, wantCalls)
+		}
+	})
+	if pi != nil {
+		return "panic: " + pi.Value
+	}
+	return failure
+}
+
+func init() {
+	harness.RegisterReplayer("C20/repeated-calls", func(raw json.RawMessage) string {
+		cs, err := unJSON[repCase](raw)
+		if err != nil {
+			return "bad case: " + err.Error()
+		}
+		return c20Repeated(harness.New(nopTB{}, "C20", "replay", ""), cs)
+	})
+}
+
+func TestC20_RepeatedCalls(t *testing.T) {
+	c := harness.New(t, "C20", "repeated-calls",
+		"several calls of one registered function in one render: with arguments of different types or nesting that print alike (1, \"1\", 1.0; [\"a b\"], [\"a\", \"b\"]), the same call in every pass of @each and @for, and side by side; the functions count their invocations. Every call must reach the function with its own arguments (the kinds received are shown) and show its own result. Exhaustive over five scenarios. Non-trivial: all. Distinct by construction.")
+	defer c.Finish()
+	for _, sc := range []string{"look-alike-arguments", "nesting-that-prints-alike", "same-call-in-a-loop", "same-call-side-by-side", "same-call-in-for"} {
+		cs := repCase{Scenario: sc}
+		c.CaseEnum(true, "scenario:"+sc)
+		c.Sample(cs)
+		if f := c20Repeated(c, cs); f != "" {
+			c.Fail(t, kindOf(f), cs, "every call reaches the function", f, f)
+		}
+	}
+	textwire.VerifReset()
+	c.ExhaustivePart("5 scenarios")
+}
